@@ -141,6 +141,7 @@ def Q2_Q3_table(ctx):
     ctx.ob('Q3', d, 'disabled-means-both-off', okd, '', site=d.loc(d.b['lo']))
     bl = ctx.method('scheduler::Scheduler<DB>', 'build')
     okb = False
+    bad_extra = []
     for p in feasible(bl.paths()):
         w = [e for e in p.events if e.kind == 'assign' and e.d['place'][0] == 'field' and e.d['place'][2].endswith('GrevmConfig.delegated_safety')]
         # first use of the policy: the planner is built iff reserve_delegated_balance (then / then_some / if)
@@ -149,7 +150,13 @@ def Q2_Q3_table(ctx):
         if w and has_call(w[0].d['value'], 'DelegatedSafetyConfig::for_spec') and is_field(strip([c for c in calls_in(w[0].d['value']) if c[1].endswith('for_spec')][0][2][1]), 'CfgEnv.spec') \
                 and rp and idx_of(p, rp[0]) > idx_of(p, w[0]):
             okb = True
-    ctx.ob('Q3', bl, 'policy-normalised-before-use', okb, '', site=bl.loc(bl.b['lo']),
+        # the spec normalisation is the ONLY thing that may change the configured policy on its way into the scheduler
+        extra = [e for e in p.events if e.kind == 'assign' and e.d['place'][0] == 'field' and
+                 (e.d['place'][2].endswith(('DelegatedSafetyConfig.forbid_delegated_create', 'DelegatedSafetyConfig.reserve_delegated_balance')) or
+                  (e.d['place'][2].endswith('GrevmConfig.delegated_safety') and e is not (w[0] if w else None)))]
+        if extra:
+            bad_extra.append(f'{site(bl, extra[0])} the policy is modified after (or besides) the per-spec normalisation')
+    ctx.ob('Q3', bl, 'policy-normalised-before-use', okb and not bad_extra, '; '.join(sorted(set(bad_extra))[:2]), site=bl.loc(bl.b['lo']),
            what='Scheduler::build replaces the configured policy by for_spec(cfg.spec) before the reserve planner is created and before either path reads it')
 
 
